@@ -160,6 +160,47 @@ let handler r =
          put_i 1;
          if two then (put_i !nev; put_il (List.rev !first_pos))
        with Outcome w -> Buffer.clear buf; first := true; put_w w)
+  | "seqg" ->
+      (* the generator itself is the model's: std::mt19937 (seed, twist, tempering) and generate_canonical extracted from
+         C18_Model2.v; the case carries no uniforms.  Output: answers, canonical draws made, 1, next raw output. *)
+      let n = integer r in
+      let seed = z_of_int (integer r) in
+      let ns = integer r in
+      let words = List.init ns (fun _ -> z_of_int (integer r)) in
+      let _ = list r in
+      let k = integer r in
+      let cs = List.init k (fun _ -> parse_call r) in
+      let g0 = mt_seed seed in
+      let g = if ns = 0 then g0 else
+          (let (x, _) = g0 in
+           (List.mapi (fun i w -> if i < ns then List.nth words i else w) x, z_of_int 0)) in
+      (match run_from fops g (nat_of_int n) cs with
+       | Ok ((answers, cons), g') -> List.iter put_answer answers; put_i (int_of_z cons); put_i 1;
+           put_i (int_of_z (fst (mt_next g')))
+       | Exit -> put_w "EXIT" | OOB -> put_w "OOB" | Fuel -> put_w "FUEL")
+  | "seqw" ->
+      (* Sample_Metropolis(_2D) with the acceptance statistic: samples, warning flag *)
+      let _seed = word r in
+      let ns = integer r in
+      for _ = 1 to ns do ignore (word r) done;
+      let us = list r in
+      let k = integer r in
+      (try
+         let rest = ref us in
+         for _ = 1 to k do
+           (match word r with
+            | "metro" -> let sigma = num r in let sample = zint r in let thin = zint r in let burn = zint r in
+                let dom = list r in let e = parse_fexpr r in
+                let ((l, (_, w)), rs) = unres (sample_metropolis_w fops (fun1 e) sigma sample thin burn dom !rest) in
+                put_i (List.length l); List.iter put_f l; put_i (if w then 1 else 0); rest := rs
+            | "metro2" -> let s1 = num r in let s2 = num r in let sample = zint r in let thin = zint r in let burn = zint r in
+                let dom = list r in let e = parse_fexpr r in
+                let ((l, (_, w)), rs) = unres (sample_metropolis_2d_w fops (fun2 e) s1 s2 sample thin burn dom !rest) in
+                put_i (List.length l); List.iter (fun (x, y) -> put_f x; put_f y) l; put_i (if w then 1 else 0); rest := rs
+            | o -> failwith ("unknown_op_" ^ o))
+         done;
+         put_i (List.length us - List.length !rest); put_i 1
+       with Outcome w -> Buffer.clear buf; first := true; put_w w)
   | "mgrid" ->
       let _seed = word r in
       let sample = zint r in let thin = zint r in let burn = zint r in
